@@ -2670,6 +2670,14 @@ func (s *Store) fsmSnapshot() (fSnap raft.FSMSnapshot, retErr error) {
 		//
 		// A failed FULL snapshot is always retryable, since we're looking to capture
 		// the entire database. So return the error and Raft will retry.
+		//
+		// Any WAL files still staged from an earlier snapshot whose persist did not
+		// take place are superseded by this full snapshot (they may even belong to a
+		// database that has since been replaced by a load), so they must not be
+		// shipped with a later incremental snapshot.
+		if err := os.RemoveAll(s.walStagingDir); err != nil {
+			return nil, fmt.Errorf("failed to remove WAL staging directory for full snapshot: %w", err)
+		}
 		if meta, _, err := s.checkpointer.Checkpoint(nil, truncateTimeout); err != nil {
 			return nil, fmt.Errorf("checkpoint failed during full snapshot: %w", err)
 		} else if !meta.Success() {
